@@ -143,4 +143,33 @@ theorem gray_step_aux (idx : Nat) (h : idx + 1 < 2 ^ 64) :
   intro i
   rw [hng, Nat.testBit_xor, Nat.one_shiftLeft, Nat.testBit_two_pow]
 
+/-! ### integer square root -/
+
+theorem isqrtAux_spec : ∀ (k r n : Nat), r * r ≤ n → n < (r + 2 ^ k) * (r + 2 ^ k) →
+    isqrtAux k r n * isqrtAux k r n ≤ n ∧ n < (isqrtAux k r n + 1) * (isqrtAux k r n + 1) := by
+  intro k
+  induction k with
+  | zero => intro r n h1 h2; simpa [isqrtAux] using ⟨h1, h2⟩
+  | succ k ih =>
+    intro r n h1 h2
+    rw [isqrtAux]
+    split
+    · rename_i hle
+      apply ih _ _ hle
+      have : r + 2 ^ k + 2 ^ k = r + 2 ^ (k + 1) := by rw [pow_succ]; ring
+      rw [this]; exact h2
+    · rename_i hlt
+      exact ih _ _ h1 (by omega)
+
+/-- `isqrt` is the floor square root (the specification of `num_integer::sqrt`) -/
+theorem isqrt_spec (n : Nat) : isqrt n * isqrt n ≤ n ∧ n < (isqrt n + 1) * (isqrt n + 1) := by
+  unfold isqrt
+  apply isqrtAux_spec
+  · simp
+  · have h := Nat.lt_log2_self (n := n)
+    have : 2 ^ (n.log2 + 1) ≤ 2 ^ (n.log2 / 2 + 1) * 2 ^ (n.log2 / 2 + 1) := by
+      rw [← pow_add]; exact Nat.pow_le_pow_right (by norm_num) (by omega)
+    simp only [Nat.zero_add]
+    omega
+
 end Ymq.PolyBits
